@@ -488,6 +488,45 @@ fn judge(run: &Run, env: &Env, c: &Case) -> CaseResult {
             }
         }
     }
+    // created/gathered attribution, from the typed accessors
+    {
+        let list = |r: &Reader| -> Vec<(String, String, bool)> {
+            r.active_manifest()
+                .map(|m| m.assertions().iter().map(|a| (a.label().to_string(), a.value().map(|v| v.to_string()).unwrap_or_default(), a.created())).collect())
+                .unwrap_or_default()
+        };
+        let (la, lb) = (list(&ra), list(&rb));
+        let strip = |l: &Vec<(String, String, bool)>| {
+            let mut v: Vec<(String, String)> = l.iter().map(|x| (x.0.clone(), x.1.clone())).collect();
+            v.sort();
+            v
+        };
+        let sorted = |l: &Vec<(String, String, bool)>| {
+            let mut v = l.clone();
+            v.sort();
+            v
+        };
+        let mixed_created_on_one_label = gd.expect.assertions.iter().any(|a| a.created && gd.expect.assertions.iter().any(|b| !b.created && b.label == a.label));
+        if strip(&la) == strip(&lb) && (sorted(&la) != sorted(&lb) || (la != lb && mixed_created_on_one_label)) {
+            let changed: Vec<String> = sorted(&lb).iter().filter(|x| !la.contains(x)).map(|x| format!("{} created={}", x.0, x.2)).collect();
+            return Err(Fail::new(
+                "C22:gathered-assertion-becomes-created",
+                format!(
+                    "same assertions (label, data) but the created/gathered attribution (and with it the order) changed after the archive round trip: {changed:?}; original order {:?}, restored order {:?}; supplied created flags {:?}",
+                    la.iter().map(|x| (x.0.as_str(), x.2)).collect::<Vec<_>>(),
+                    lb.iter().map(|x| (x.0.as_str(), x.2)).collect::<Vec<_>>(),
+                    gd.expect.assertions.iter().map(|a| (a.label.as_str(), a.created)).collect::<Vec<_>>()
+                ),
+            ));
+        }
+    }
+    if std::env::var("VERIF_DUMP").is_ok() {
+        for (n, r) in [("original", &ra), ("restored", &rb)] {
+            if let Some(m) = r.active_manifest() {
+                eprintln!("{n}: {:?}", m.assertions().iter().map(|a| format!("{}#{}{}", a.label(), a.instance(), if a.created() { "(created)" } else { "" })).collect::<Vec<_>>());
+            }
+        }
+    }
     let mut diff = defgen::first_diff(&ja, &jb, "");
     if let Some(d) = &diff {
         // claim v1 flavour of the recognised thumbnail differences (data boxes have no hashedURI status entry,
@@ -520,6 +559,24 @@ fn judge(run: &Run, env: &Env, c: &Case) -> CaseResult {
             format!("C22:report-differs:{part}"),
             format!("manifest report original vs restored ({hops} hop(s)) differs at {d}"),
         ));
+    }
+    // status lists are reported in assertion-store order, which follows the (reassigned) instance numbers:
+    // compare them as multisets
+    fn sort_status(v: &mut Value) {
+        match v {
+            Value::Array(a) => {
+                a.iter_mut().for_each(sort_status);
+                if a.iter().all(|x| x.get("code").is_some()) {
+                    a.sort_by_key(|x| x.to_string());
+                }
+            }
+            Value::Object(m) => m.values_mut().for_each(sort_status),
+            _ => {}
+        }
+    }
+    let (mut vra, mut vrb, mut vsa, mut vsb) = (vra, vrb, vsa, vsb);
+    for v in [&mut vra, &mut vrb, &mut vsa, &mut vsb] {
+        sort_status(v);
     }
     if let Some(d) = defgen::first_diff(&vra, &vrb, "").or_else(|| defgen::first_diff(&vsa, &vsb, "")) {
         return Err(Fail::new(
